@@ -208,6 +208,7 @@ func (r *rewriter) rewrite() bool {
 	lenCap := map[*ast.CallExpr]string{}
 	rangeKind := map[*ast.RangeStmt]string{}
 	numCPU := map[*ast.CallExpr]bool{}
+	goMaxProcs := map[*ast.CallExpr]bool{}
 	closeCall := map[*ast.CallExpr]bool{}
 	goFallback := map[*ast.GoStmt]bool{}
 	ast.Inspect(r.file, func(n ast.Node) bool {
@@ -225,6 +226,11 @@ func (r *rewriter) rewrite() bool {
 				if id, ok := se.X.(*ast.Ident); ok && se.Sel.Name == "NumCPU" {
 					if pn, ok := r.info.Uses[id].(*types.PkgName); ok && pn.Imported().Path() == "runtime" {
 						numCPU[x] = true
+					}
+				}
+				if id, ok := se.X.(*ast.Ident); ok && se.Sel.Name == "GOMAXPROCS" {
+					if pn, ok := r.info.Uses[id].(*types.PkgName); ok && pn.Imported().Path() == "runtime" {
+						goMaxProcs[x] = true
 					}
 				}
 			}
@@ -290,6 +296,11 @@ func (r *rewriter) rewrite() bool {
 			if numCPU[x] {
 				r.count("numcpu")
 				c.Replace(&ast.CallExpr{Fun: sel("vsched", "NumCPU")})
+				return true
+			}
+			if goMaxProcs[x] {
+				r.count("gomaxprocs")
+				c.Replace(&ast.CallExpr{Fun: sel("vsched", "GoMaxProcs"), Args: x.Args})
 				return true
 			}
 			// make(*vsched.Chan[T], n) after the ChanType rewrite
